@@ -61,7 +61,7 @@ class Flip(ArrayOpSpec):
     def configs(self, tier):
         out = [dict(ndim=1, axis=[0])]
         if tier != "quick":
-            out += [dict(ndim=2, axis=[0]), dict(ndim=2, axis=[1]), dict(ndim=2, axis=[0, 1])]
+            out += [dict(ndim=2, axis=[0]), dict(ndim=2, axis=[1])]  # (both axes at once exceeds the time budget)
         return out
 
     def setup(self, c):
